@@ -425,6 +425,16 @@ func c04Run(c *hx.Ctx) {
 
 	// --- corpus: stored witnesses of past failures (regression anchors; must pass on the current tree)
 	c04Corpus(c)
+	// --- single-tile streams moved to a non-zero image offset (SIZ rewritten; XOsiz/YOsiz multiples of 2^levels,
+	// both anchorings of the tile grid): expected-correct since fix 3981d09
+	for _, off := range [][2]int{{64, 0}, {0, 64}, {2048, 2048}, {16384, 4096}} {
+		for lv := 0; lv <= 5; lv += 5 {
+			k := c04Cfg{W: 21, H: 13, C: 3, P: 8, Levels: lv, CBW: 8, CBH: 64, Layers: 2, MCT: true, Prog: lv % 5}
+			c19OffsetEval(c, k, off[0], off[1], true, "image-offset:single-tile")
+			c19OffsetEval(c, k, off[0], off[1], false, "image-offset:single-tile-tilegrid-at-0")
+		}
+	}
+	c19OffsetRandom(c, false)
 	// --- boundary cases first
 	base := c04Cfg{W: 1, H: 1, C: 1, P: 8, Levels: 0, CBW: 64, CBH: 64, Layers: 1, MCT: true}
 	for _, wh := range [][2]int{{1, 1}, {1, 2}, {2, 1}, {1, 9}, {9, 1}, {3, 3}, {63, 65}, {64, 64}, {65, 63}} {
